@@ -151,6 +151,12 @@ pub fn opt_json(o: Option<u64>) -> serde_json::Value {
     }
 }
 
+/// the same for any TypeConfig over the SimEngine
+pub fn new_buflog_tc<T: TypeConfig<SE = SimEngine>>(engine: Arc<SimEngine>) -> Arc<BufferedRaftLog<T>> {
+    let (log, rx) = BufferedRaftLog::<T>::new(1, PersistenceConfig::default(), engine);
+    log.start(rx, None)
+}
+
 pub fn new_buflog(engine: Arc<SimEngine>) -> Arc<BufferedRaftLog<SimTC>> {
     let (log, rx) = BufferedRaftLog::<SimTC>::new(1, PersistenceConfig::default(), engine);
     log.start(rx, None)
